@@ -9,7 +9,7 @@ in straight-line code and nested in loops / ifs.
 """
 from __future__ import annotations
 
-ELB = {"i8": 1, "i32": 4, "i64": 8}
+ELB = {"i8": 1, "i32": 4, "i64": 8, "i4": 1, "i12": 2}
 
 
 class AllocGen:
@@ -69,7 +69,7 @@ class AllocGen:
             self.refs.append(nm)
             self.unused.add(nm)
             self.site_of[nm] = self.tag
-            return {"k": "alloc", "name": nm, "site": self.tag, "n": n, "el": el, "align": r.choice([1, 4, 8, 64])}
+            return {"k": "alloc", "name": nm, "site": self.tag, "n": n, "el": el, "align": r.choice([1, 4, 8, 64, 64, 256])}
         if k == "use":
             return self.use()
         if k == "view":
